@@ -110,6 +110,7 @@ func report(core, length, nexp int, res any, tag byte) types.WorkReport {
 		d := dx.(map[string]any)
 		var w types.WorkResult
 		w.ServiceID = types.ServiceID(vfd.I(d["s"]))
+		w.Result = types.GetWorkExecResult(types.WorkExecResultOk, []byte{1})
 		w.RefineLoad = types.RefineLoad{GasUsed: types.Gas(vfd.FromU64LE(d["u"])), Imports: types.U16(vfd.I(d["i"])),
 			ExtrinsicCount: types.U16(vfd.I(d["x"])), ExtrinsicSize: types.U32(vfd.I(d["z"])), Exports: types.U16(vfd.I(d["e"]))}
 		r.Results = append(r.Results, w)
